@@ -30,7 +30,7 @@ ASSUMPTIONS = ["dot-directories are not generated (the property speaks of non-hi
 DECIDING = ["trees_run", "fault_runs", "entry_point_comparisons"]
 EXHAUSTIVE_NOTE = "for trees of <= 6 files: every fault kind x position and every pair of positions"
 
-FAULTS = ["undecodable", "undecodable-late", "outdir", "parentfile"]
+FAULTS = ["undecodable", "undecodable-late", "outdir", "parentfile", "danglinglink"]
 NAMES = ["rtr1.cfg", "core sw.cfg", "édge-ß.conf", "noext", "a.b.c.txt", "x", "配置.cfg", "UPPER.CFG", "r2.cfg", "fw 01 (old).txt"]
 DIRS = ["site a", "dc1", "ünïcode", "deep", "x.d", "lab"]
 
@@ -254,6 +254,20 @@ def _one_run(ctx, case, nc, rd, opts, feats, tree, visible, fset, pre, rng, entr
     artifacts = set()
     for pos, kind in fset:
         rel = vis_rel[pos]
+        if kind == "danglinglink":
+            # the output path is a symbolic link to a place that does not exist: it cannot be written
+            try:
+                os.makedirs(os.path.dirname(os.path.join(dst, rel)), exist_ok=True)
+                if not os.path.lexists(os.path.join(dst, rel)):
+                    os.symlink(os.path.join(rd, "no-such-dir", "x"), os.path.join(dst, rel))
+            except OSError:
+                pass
+            failing.add(rel)
+            p = rel
+            while p:
+                artifacts.add(p)
+                p = os.path.dirname(p)
+            continue
         if kind == "outdir":
             try:
                 os.makedirs(os.path.join(dst, rel), exist_ok=True)
